@@ -178,6 +178,9 @@ def install_loggers(api, current, stubs=(), choices=()):
                 for i, (label, val) in enumerate(pending):
                     if label == _c.label:
                         del pending[i]
+                        if val.get("t") == "raise":
+                            mod, qn = val["cls"].split(":")
+                            raise getattr(importlib.import_module(mod), qn)("stubbed outcome of %s" % label)
                         return build(val)
                 return None
             return _orig(*a, **kw)
